@@ -2,6 +2,8 @@ import Lean.Data.Json
 import LarkVerif.Repeat
 import LarkVerif.Props.C06
 import LarkVerif.Indenter
+import LarkVerif.LexModel
+import Std.Data.HashMap
 /-! Line-protocol driver: one JSON request per stdin line (`{"op": ...}`), one JSON answer per stdout line.
     Runs the *executable definitions the theorems are about*.  Not part of the proof library. -/
 open Lean
@@ -86,6 +88,47 @@ def runIndenter (toks : List Tok) : Json := Id.run do
     | .error _ => Json.null
   return Json.mkObj [("out", Json.arr out), ("consumed", natJ consumed), ("err", Json.null), ("process", whole)]
 
+def tripleOf (j : Json) : Except String (Nat × Nat × Nat) := do
+  match (← j.getArr?).toList with
+  | [a, b, c] => pure (← a.getNat?, ← b.getNat?, ← c.getNat?)
+  | _ => throw "triple"
+
+def natListOf (j : Json) : Except String (List Nat) := do (← j.getArr?).toList.mapM (·.getNat?)
+
+open LexModel in
+def termInfoOf (j : Json) : Except String TermInfo := do
+  pure ⟨← getStr j "name", ← (← j.getObjVal? "prio").getInt?, ← getNat j "maxw", ← getNat j "vlen", ← boolOf (← j.getObjVal? "str")⟩
+
+open LexModel LexProto in
+def lexErrJ : LexErr → Json
+  | .chars p allowed => Json.mkObj [("kind", "chars"), ("pos", natJ p), ("allowed", natArr allowed)]
+  | .token ty p len allowed => Json.mkObj [("kind", "token"), ("ty", natJ ty), ("pos", natJ p), ("len", natJ len), ("allowed", natArr allowed)]
+
+open LexModel LexProto in
+def runLex (j : Json) : Except String Json := do
+  let terms ← (← getArr j "terms").mapM termInfoOf
+  let self ← (← getArr j "self").mapM spanOf
+  let fsub ← (← getArr j "fsub").mapM spanOf
+  let ignore ← natListOf (← j.getObjVal? "ignore")
+  let n ← getNat j "n"
+  let mtL ← (← getArr j "mt").mapM tripleOf
+  let fullL ← (← getArr j "full").mapM tripleOf
+  let mtMap : Std.HashMap (Nat × Nat) Nat := mtL.foldl (fun m (t, p, l) => m.insert (t, p) l) {}
+  let fullSet : Std.HashMap (Nat × Nat × Nat) Unit := fullL.foldl (fun m k => m.insert k ()) {}
+  let L : Lexer := ⟨terms.toArray, self, fsub, ignore⟩
+  let F : Facts := ⟨fun t p => mtMap.get? (t, p), fun s p l => fullSet.contains (s, p, l)⟩
+  let all := List.range terms.length
+  let start := (← getNat j "start")
+  let mode ← getStr j "mode"
+  let (toks, err) ←
+    if mode == "basic" then pure (L.lexBasic F all n (n + 1) start)
+    else do
+      let subsets ← (← getArr j "subsets").mapM natListOf
+      pure (L.lexCtx F all n subsets start)
+  pure (Json.mkObj [("toks", Json.arr (toks.map (fun (t, p, l) => natArr [t, p, l])).toArray),
+                    ("err", match err with | none => Json.null | some e => lexErrJ e),
+                    ("order", natArr (L.scanList (L.sorted all)))])
+
 def handle (j : Json) : Except String Json := do
   let op ← getStr j "op"
   match op with
@@ -128,6 +171,7 @@ def handle (j : Json) : Except String Json := do
   | "indenter" =>
     let toks ← (← getArr j "toks").mapM indTokOf
     pure (runIndenter toks)
+  | "lex" => runLex j
   | _ => throw s!"unknown op {op}"
 
 partial def loop (h : IO.FS.Stream) (out : IO.FS.Stream) : IO Unit := do
